@@ -40,6 +40,13 @@ type Rand struct {
 	// FailAt > 0: the FailAt-th Read call (1-based) and every later one returns ErrInjectedRand.
 	FailAt int
 	Failed bool
+	// RootCalls counts the Read calls of the root (caller) goroutine.
+	RootCalls int
+	// AltRootCall > 0: the AltRootCall-th Read call of the root goroutine (1-based) is
+	// answered from an independent stream; the main stream still advances by the same
+	// amount, so every other draw of the party is unchanged ("one coin flipped").
+	AltRootCall int
+	altSrc      *rand.ChaCha8
 	// SubStreams counts distinct worker goroutines that read.
 	SubStreams int
 	labels     map[uint64]string          // goid -> label ("" = root)
@@ -80,6 +87,15 @@ func (r *Rand) Read(p []byte) (int, error) {
 		}
 	}
 	_, _ = src.Read(p[:n])
+	if label == "" {
+		r.RootCalls++
+		if r.AltRootCall > 0 && r.RootCalls == r.AltRootCall {
+			if r.altSrc == nil {
+				r.altSrc = rand.NewChaCha8(r.seed.Sub(fmt.Sprintf("altcall:%d", r.AltRootCall)))
+			}
+			_, _ = r.altSrc.Read(p[:n])
+		}
+	}
 	r.Bytes += int64(n)
 	return n, nil
 }
